@@ -970,6 +970,12 @@ func (vc *VC) unboxFn(t types.Type, l Leaf) string {
 	if !vc.declared[f] {
 		vc.declared[f] = true
 		vc.emit(fmt.Sprintf("(declare-fun %s (Int) %s)", f, l.Sort))
+		// H4 patch: interface values holding a pointer are equal iff the pointers are (Go: same dynamic type and equal
+		// values). Stated for single-leaf pointer payloads only: two boxes with this tag and the same payload are one box.
+		if _, isPtr := under(t).(*types.Pointer); isPtr && len(leaves(t)) == 1 && l.Sort == "Int" {
+			tag := vc.typeTag(t)
+			vc.emit(fmt.Sprintf("(assert (forall ((qa Int) (qb Int)) (! (=> (and (= (itag qa) %s) (= (itag qb) %s) (= (%s qa) (%s qb))) (= qa qb)) :pattern ((%s qa) (%s qb)))))", tag, tag, f, f, f, f))
+		}
 	}
 	return f
 }
@@ -1098,6 +1104,9 @@ func (fr *Frame) execNext(in *ssa.Next, st *State) Val {
 	w := vc.fresh("runew", "Int")
 	b0 := app("sbyte", s, idx)
 	vc.assert(and(le("0", r), le(r, "1114111"), le("1", w), le(w, "4")))
+	// the hidden byte index of a string range loop starts at 0 and only advances by rune widths that fit:
+	// 0 <= idx <= len(s) is an invariant of the iterator itself (the hidden heap is havoced at loop heads).
+	st.reach = vc.define("r", "Bool", and(st.reach, le("0", idx), le(idx, app("slen", s))))
 	st.reach = vc.define("r", "Bool", and(st.reach, implies(okc, and(le(plus(idx, w), app("slen", s)),
 		implies(lt(b0, "128"), and(eq(r, b0), eq(w, "1"))), implies(le("128", b0), le("128", r))))))
 	vc.setHeap(st, it.idxHeap, "Int", ite(okc, plus(idx, w), idx))
